@@ -29,9 +29,9 @@ RULE_MODULES = {
 
 
 class Ctx:
-    def __init__(self, tier: str) -> None:
+    def __init__(self, tier: str, root: str | None = None) -> None:
         self.tier = tier
-        self.model = Model()
+        self.model = Model(root)
         self._reg: RegModel | None = None
         self.allow = report.Allow()
         self._cache: dict[str, object] = {}
@@ -65,6 +65,12 @@ def main() -> int:
         out = mod.run(ctx)
         for r in out['results']:
             report.apply_allow(r, ctx.allow)
+        if args.tier == 'thorough':
+            from sa import thorough
+            extra = thorough.run(prop, ctx, out)
+            out['results'].extend(extra.get('results', []))
+            out.setdefault('counts', {}).update(extra.get('counts', {}))
+            out['explanation'] += ' ' + extra.get('explanation', '')
         baselines = report.load_json(os.path.join(report.VERIF, 'sa', 'baselines.json'), {})
         return report.finish(
             prop, args.tier, out['results'], out['explanation'], out.get('assumptions', []),
